@@ -490,9 +490,10 @@ class CircuitTemplate(AbstractBaseTemplate):
         outputs_final = {}
         for key, out_info in output_map.items():
             if type(out_info) is dict:
-                outputs_final[key] = {key2: np.squeeze(outputs.pop(key2)[:, idx]) for key2, idx in out_info.items()}
+                # no `pop`: the same variable may be requested under several keys
+                outputs_final[key] = {key2: np.squeeze(outputs[key2][:, idx]) for key2, idx in out_info.items()}
             else:
-                raw = outputs.pop(key)[:, out_info]
+                raw = outputs[key][:, out_info]
                 if hasattr(out_info, '__len__') and len(out_info) > 1:
                     # population output: keep (n_time, n_units) — do not squeeze unit axis
                     outputs_final[key] = raw
@@ -536,7 +537,8 @@ class CircuitTemplate(AbstractBaseTemplate):
                 columns.append(key)
                 data.append(out)
         if multi_index:
-            columns = MultiIndex.from_tuples(columns)
+            # plain keys become 1-tuples, otherwise `from_tuples` splits them into their characters
+            columns = MultiIndex.from_tuples([col if isinstance(col, tuple) else (col,) for col in columns])
         results = DataFrame(data=np.asarray(data).T, columns=columns, index=time_vec)
 
         # store current state of the network
@@ -1189,7 +1191,7 @@ class CircuitTemplate(AbstractBaseTemplate):
 
         else:
 
-            outputs = self._relabel_var(outputs, self._vectorization_labels)
+            # resolve the requested nodes on the template first; the vectorization labels only apply to the backend key
             *out_nodes, out_op, out_var = outputs.split('/')
             target_nodes = self.get_nodes(out_nodes, var_identifier=(out_op, out_var))
 
